@@ -26,6 +26,8 @@ KNOWN_FILE = os.path.join(HERE, "known_fns.txt")
 MAX_BLOCKS = 400
 MAX_DEPTH = 4
 MODELS_ON = True
+THREAD_ALL = True
+MAX_AGE = 10
 
 _known = None
 
@@ -444,7 +446,8 @@ def inline_program(bodies_by_tag):
     for tag, bodies in bodies_by_tag.items():
         cand = {}
         for bid, j in bodies.items():
-            if j["kind"] in ("Fn", "AssocFn") and not j.get("async") and j.get("coroutine") is None and bid not in known \
+            # (for an `async fn` this is the outer body that only builds the future; the future's body is re-owned below)
+            if j["kind"] in ("Fn", "AssocFn") and j.get("coroutine") is None and bid not in known \
                     and len(j["blocks"]) <= MAX_BLOCKS and j["id"] == j["owner"]:
                 cand[bid] = j
         done = {}
@@ -476,7 +479,8 @@ def inline_program(bodies_by_tag):
         for bid, j in list(bodies.items()):
             process(bid, j, [])
         for bid, j in bodies.items():
-            if j.pop("_spliced", False):
+            j.pop("_spliced", False)
+            if THREAD_ALL or j.get("_x"):
                 n = thread_body(j)
                 if n:
                     report.append({"crate": tag, "host": bid, "callee": "thread", "blocks": n, "threaded": n})
@@ -502,6 +506,17 @@ def inline_program(bodies_by_tag):
                             still.add(o["fn"]["def"])
             for bid in inlined - still:
                 bodies[bid]["inlined_away"] = True
+            # the closures / the future of an inlined helper now belong to the function that builds them - like a
+            # closure or an async block written in place - provided all its callers are one function
+            for cid in inlined - still:
+                hosts = {bodies[r["host"]]["owner"] for r in report if r["crate"] == tag and r["callee"] == cid and r["host"] in bodies}
+                hosts = {h if h not in inlined else None for h in hosts}
+                if len(hosts) == 1 and None not in hosts:
+                    new_owner = list(hosts)[0]
+                    for bid, j in bodies.items():
+                        if j["owner"] == cid and bid != cid:
+                            j["owner"] = new_owner
+                            j["reowned_from"] = cid
     return report
 
 
@@ -554,11 +569,73 @@ def _escaped(j):
 
 
 def _is_seed(blk, s):
-    r = s["r"]
-    return bool(blk.get("inl")) or bool(r.get("model")) or bool(r.get("thr"))
+    # flags of logging macros (`enabled` of tracing's debug!/info!) are not program logic
+    return "|m:" not in s.get("sp", "") or bool(blk.get("inl"))
 
 
-def _step_block(j, blk, st, esc):
+def _relevant(j):
+    """locals whose variant / truth value is branched on (directly, through `?`, or after being moved on)"""
+    rel = set()
+    blocks = j["blocks"]
+    for blk in blocks:
+        t = blk["t"]
+        sw = t["o"]["p"]["l"] if t["k"] == "switch" and t["o"].get("k") in ("copy", "move") and not t["o"]["p"]["pr"] else None
+        for s in blk["s"]:
+            if s["k"] == "assign" and s["r"]["k"] == "discr" and not s["r"]["p"]["pr"] and not s["p"]["pr"] and s["p"]["l"] == sw:
+                rel.add(s["r"]["p"]["l"])
+        if sw is not None:
+            rel.add(sw)
+        if t["k"] == "call" and len(t.get("args") or []) == 1 and t["args"][0].get("k") in ("copy", "move") and not t["args"][0]["p"]["pr"]:
+            fn = (t["f"].get("fn") or {}) if t["f"].get("k") == "const" else {}
+            if fn.get("def", "").endswith("Try::branch"):
+                rel.add(t["args"][0]["p"]["l"])
+    changed = True
+    while changed:
+        changed = False
+        for blk in blocks:
+            for s in blk["s"]:
+                if s["k"] == "assign" and not s["p"]["pr"] and s["p"]["l"] in rel:
+                    r = s["r"]
+                    src = None
+                    if r["k"] == "use" and r["o"].get("k") in ("copy", "move") and not r["o"]["p"]["pr"]:
+                        src = r["o"]["p"]["l"]
+                    elif r["k"] == "un" and r.get("op") == "Not" and r["a"].get("k") in ("copy", "move") and not r["a"]["p"]["pr"]:
+                        src = r["a"]["p"]["l"]
+                    if src is not None and src not in rel:
+                        rel.add(src)
+                        changed = True
+            t = blk["t"]
+            if t["k"] == "call" and not t["d"]["pr"] and t["d"]["l"] in rel and len(t["args"]) == 1:
+                fn = (t["f"].get("fn") or {}) if t["f"].get("k") == "const" else {}
+                if fn.get("def", "").endswith("Try::branch") and t["args"][0].get("k") in ("copy", "move") and not t["args"][0]["p"]["pr"] and t["args"][0]["p"]["l"] not in rel:
+                    rel.add(t["args"][0]["p"]["l"])
+                    changed = True
+    return rel
+
+
+def _loop_headers(blocks):
+    heads = set()
+    state = {}
+    stack = [(0, iter(_succs(blocks[0]["t"])))]
+    state[0] = 1
+    while stack:
+        node, it = stack[-1]
+        adv = False
+        for x in it:
+            if state.get(x) == 1:
+                heads.add(x)
+            elif x not in state:
+                state[x] = 1
+                stack.append((x, iter(_succs(blocks[x]["t"]))))
+                adv = True
+                break
+        if not adv:
+            state[node] = 2
+            stack.pop()
+    return heads
+
+
+def _step_block(j, blk, st, esc, rel=None):
     """abstract execution of one block; returns (state at exit, resolved successor or None, rewritten stmts)"""
     st = dict(st)
     stmts = blk["s"]
@@ -578,7 +655,7 @@ def _step_block(j, blk, st, esc):
             continue
         l = p["l"]
         val = None
-        if l not in esc:
+        if l not in esc and (rel is None or l in rel):
             if r["k"] == "agg" and r.get("ak") == "adt" and r.get("adt") in (RESULT, OPTION, CFLOW) and _is_seed(blk, s):
                 val = (r["adt"], r["vi"])
             elif r["k"] == "use" and r["o"].get("k") == "const" and r["o"].get("ty") == "bool" and _is_seed(blk, s) and r["o"].get("v") in ("true", "false", "0", "1"):
@@ -611,14 +688,14 @@ def _step_block(j, blk, st, esc):
             v = st[o["p"]["l"]][1]
             tm = {str(a): tb for a, tb in t["ts"]}
             nxt = tm.get(str(v), t["else"])
-            st.pop(o["p"]["l"], None)
+            st = {}     # one resolution per set of facts: the copies end here
     elif t["k"] == "call":
         for a in t["args"]:
             if a.get("k") == "move" and not a["p"]["pr"]:
                 pass
         d = t["d"]
         val = None
-        if not d["pr"] and d["l"] not in esc:
+        if not d["pr"] and d["l"] not in esc and (rel is None or d["l"] in rel):
             fn = (t["f"].get("fn") or {}) if t["f"].get("k") == "const" else {}
             df = fn.get("def", "")
             if df.endswith("Try::branch") and len(t["args"]) == 1 and t["args"][0].get("k") in ("copy", "move") and not t["args"][0]["p"]["pr"]:
@@ -654,7 +731,11 @@ def thread_body(j):
     blocks = j["blocks"]
     n = len(blocks)
     esc = _escaped(j)
-    budget = 6 * n + 400
+    rel = _relevant(j)
+    if not rel:
+        return 0
+    heads = _loop_headers(blocks)
+    budget = 4 * n + 200
     index = {}          # (block, frozenset(state)) -> new index
     work = [(0, frozenset())]
     order = []
@@ -674,12 +755,15 @@ def thread_body(j):
         if len(order) > budget:
             return 0
         blk = blocks[bi]
-        st, forced, new_stmts = _step_block(j, blk, dict(fs), esc)
-        fo = frozenset(st.items())
+        ages = {l: a for (l, v, a) in fs}
+        st, forced, new_stmts = _step_block(j, blk, {l: v for (l, v, a) in fs}, esc, rel)
+        # a fact that is not consumed within MAX_AGE blocks is dropped (bounds the duplication)
+        fo = frozenset((l, v, ages.get(l, -1) + 1 if (l in ages and dict((l2, v2) for (l2, v2, a2) in fs).get(l) == v) else 0) for l, v in st.items())
+        fo = frozenset(x for x in fo if x[2] <= MAX_AGE)
         succ = [forced] if forced is not None else _succs(blk["t"])
         out_info[node] = (fo, forced, new_stmts)
         for x in succ:
-            work.append((x, fo))
+            work.append((x, fo if x not in heads else frozenset()))
     if nxt_index == n and not any(v[1] is not None or v[2] is not None for v in out_info.values()):
         return 0
     new_blocks = list(blocks) + [None] * (nxt_index - n)
@@ -689,15 +773,15 @@ def thread_body(j):
         fo, forced, new_stmts = out_info[node]
         blk = blocks[bi]
         if forced is not None:
-            nt = {"k": "goto", "t": index[(forced, fo)], "thr_of": bi, "sp": blk["t"].get("sp", "")}
+            nt = {"k": "goto", "t": index[(forced, fo if forced not in heads else frozenset())], "thr_of": bi, "sp": blk["t"].get("sp", "")}
             resolved += 1
         else:
-            nt = _retarget(blk["t"], lambda x, fo=fo: index[(x, fo)])
+            nt = _retarget(blk["t"], lambda x, fo=fo: index[(x, fo if x not in heads else frozenset())])
         nb = dict(blk)
         nb["s"] = new_stmts if new_stmts is not None else blk["s"]
         nb["t"] = nt
         if fs:
-            nb["thr"] = [bi, sorted(str(x) for x in fs)]
+            nb["thr"] = [bi, sorted(str((x[0], x[1])) for x in fs)]
         new_blocks[index[node]] = nb
     j["blocks"] = new_blocks
     return resolved
